@@ -38,6 +38,11 @@ Theorem gen_sizes_and_ranges :
 Proof. exact gen_sizes. Qed.
 Print Assumptions gen_sizes_and_ranges.
 
+(* translated from the AST (purefunc, stage 3 with third-party structs): rrView.Header() *)
+Theorem gen_shim_header_is_its_own_copy : forall v, go_rrView_Header v = T_rrView_hdr v.
+Proof. exact gen_rrview_header. Qed.
+Print Assumptions gen_shim_header_is_its_own_copy.
+
 (* ---- header word ---- *)
 
 (* the same word as the library for every int opcode, every int rcode, every flag *)
